@@ -120,6 +120,7 @@ class Runtime:
 
         def T(it_, this, args):
             n = Node('T', it.pc, text=args[0] if args else UNDEFINED)
+            n.parent = parent
             parent.children.append(n)
             if len(args) > 1 and isinstance(args[1], Closure) and rt.mode == 'create':
                 tok = JObj(tag='N')
@@ -131,6 +132,7 @@ class Runtime:
             tag, generics, init, children = args[0], args[1], args[2], args[3]
             n = Node('E', it.pc, tag=tag, generics=generics, slot=args[4] if len(args) > 4 else UNDEFINED,
                      slot_value_names=args[5] if len(args) > 5 else UNDEFINED)
+            n.parent = parent
             parent.children.append(n)
             tok = JObj(tag='N')
             tok.node = n
@@ -140,6 +142,7 @@ class Runtime:
 
         def B(it_, this, args):
             n = Node('B', it.pc, key=args[0])
+            n.parent = parent
             parent.children.append(n)
             rt.run_children(args[1], n, C)
             return UNDEFINED
@@ -147,6 +150,7 @@ class Runtime:
         def F(it_, this, args):
             lst, key, tree, lpath, cb = args[0], args[1], args[2], args[3], args[4]
             n = Node('F', it.pc, list=lst, key=key, tree=tree, lvalue=lpath)
+            n.parent = parent
             parent.children.append(n)
             item, index = rt.fresh('item'), rt.fresh('index')
             if rt.mode == 'create':
@@ -166,6 +170,7 @@ class Runtime:
 
         def S(it_, this, args):
             n = Node('S', it.pc, name=args[0] if args else UNDEFINED, slot=args[2] if len(args) > 2 else UNDEFINED)
+            n.parent = parent
             parent.children.append(n)
             if len(args) > 1 and isinstance(args[1], Closure):
                 tok = JObj(tag='N')
@@ -175,6 +180,7 @@ class Runtime:
 
         def J(it_, this, args):
             n = Node('J', it.pc, slot=args[1] if len(args) > 1 else UNDEFINED)
+            n.parent = parent
             parent.children.append(n)
             rt.run_children(args[0], n, C)
             return UNDEFINED
@@ -220,11 +226,20 @@ class Runtime:
         val, _ = self.it.run_program(gen_object_src, g2)
         if not isinstance(val, JObj) or '_' not in val.props:
             raise JsUnsupported('template object has an unexpected shape')
-        return val.props['_']
+        H = val.props['_']
+        self.template_calls = []
+        for name in list(H.order):
+            f = H.props[name]
+            if isinstance(f, Closure):
+                def wrap(it_, this, args, _f=f, _n=name):
+                    self.template_calls.append((_n, args[2] if len(args) > 2 else UNDEFINED, args[3] if len(args) > 3 else UNDEFINED, list(it_.pc)))
+                    return it_.call(_f, args)
+                H.props[name] = Native('template:' + name, wrap)
+        return H
 
     def run(self, H, name='', data=None, tree=None):
         tmpl = H.props.get(name)
-        if not isinstance(tmpl, Closure):
+        if not isinstance(tmpl, (Closure, Native)):
             raise JsUnsupported('no template %r' % name)
         D = data if data is not None else z3.Const('D', V)
         C = self.mode == 'create'
